@@ -218,6 +218,8 @@ pub enum Ev {
 pub struct History {
     pub txs: Vec<Vec<Step>>,
     pub events: Vec<Ev>,
+    /// run on a recovered database: the initial data is written, every handle dropped and the database opened again
+    pub reopened: bool,
 }
 
 impl History {
@@ -252,13 +254,21 @@ pub fn run_history(h: &History) -> Result<String, Violation> {
     let dir = fresh_dir();
     let r = std::panic::catch_unwind(std::panic::AssertUnwindSafe(|| -> Result<String, Violation> {
         let e = |x: fjall::Error| Violation::new("op_error", format!("{x:?}"));
-        let db = OptimisticTxDatabase::builder(&dir).worker_threads_unchecked(0).open().map_err(e)?;
-        let kss = [db.keyspace("x", KeyspaceCreateOptions::default).map_err(e)?, db.keyspace("y", KeyspaceCreateOptions::default).map_err(e)?];
-        let z = db.keyspace("z", KeyspaceCreateOptions::default).map_err(e)?;
+        let mut db = OptimisticTxDatabase::builder(&dir).worker_threads_unchecked(0).open().map_err(e)?;
+        let mut kss = [db.keyspace("x", KeyspaceCreateOptions::default).map_err(e)?, db.keyspace("y", KeyspaceCreateOptions::default).map_err(e)?];
+        let mut z = db.keyspace("z", KeyspaceCreateOptions::default).map_err(e)?;
         for (i, m) in initial_map().iter().enumerate() {
             for (k, v) in m {
                 kss[i].inner().insert(k, v).map_err(e)?;
             }
+        }
+        if h.reopened {
+            drop(kss);
+            drop(z);
+            drop(db);
+            db = OptimisticTxDatabase::builder(&dir).worker_threads_unchecked(0).open().map_err(e)?;
+            kss = [db.keyspace("x", KeyspaceCreateOptions::default).map_err(e)?, db.keyspace("y", KeyspaceCreateOptions::default).map_err(e)?];
+            z = db.keyspace("z", KeyspaceCreateOptions::default).map_err(e)?;
         }
         let n = h.txs.len();
         let mut live: Vec<Option<OptimisticWriteTx>> = (0..n).map(|_| None).collect();
@@ -483,7 +493,7 @@ pub fn histories(tier: &str) -> Vec<(&'static str, Vec<History>)> {
             for b in &sh {
                 let txs = vec![a.clone(), b.clone()];
                 for ev in full_interleavings(&txs) {
-                    hs.push(History { txs: txs.clone(), events: ev });
+                    hs.push(History { txs: txs.clone(), events: ev, reopened: false });
                 }
             }
         }
@@ -501,7 +511,7 @@ pub fn histories(tier: &str) -> Vec<(&'static str, Vec<History>)> {
                 for (x, y) in [(a, b), (b, a)] {
                     let txs = vec![x.clone(), y.clone()];
                     for o in bc_orders(2) {
-                        hs.push(History { txs: txs.clone(), events: with_steps(&o, &txs) });
+                        hs.push(History { txs: txs.clone(), events: with_steps(&o, &txs), reopened: false });
                     }
                 }
             }
@@ -518,7 +528,7 @@ pub fn histories(tier: &str) -> Vec<(&'static str, Vec<History>)> {
                 for c in &sh {
                     let txs = vec![a.clone(), b.clone(), c.clone()];
                     for o in bc_orders(3) {
-                        hs.push(History { txs: txs.clone(), events: with_steps(&o, &txs) });
+                        hs.push(History { txs: txs.clone(), events: with_steps(&o, &txs), reopened: false });
                     }
                 }
             }
@@ -543,16 +553,31 @@ pub fn histories(tier: &str) -> Vec<(&'static str, Vec<History>)> {
                                 for pos2 in pos + 1..=ev.len().min(pos + 3) {
                                     let mut ev2 = ev.clone();
                                     ev2.insert(pos2, Ev::Maint);
-                                    hs.push(History { txs: txs.clone(), events: ev2 });
+                                    hs.push(History { txs: txs.clone(), events: ev2, reopened: false });
                                 }
                             }
-                            hs.push(History { txs: txs.clone(), events: ev });
+                            hs.push(History { txs: txs.clone(), events: ev, reopened: false });
                         }
                     }
                 }
             }
         }
         fams.push(("3tx/with maintenance at every position", hs));
+    }
+    // F0r / F3r: the same histories on a recovered database (the oracle, the snapshot tracker and the counters are built
+    // by another constructor path after a reopen)
+    {
+        let mut hs: Vec<History> = vec![];
+        for (name, fam) in &fams {
+            if *name == "2tx/all-interleavings" || *name == "3tx/with maintenance at every position" {
+                for (i, h) in fam.iter().enumerate() {
+                    if !q || i % 4 == 0 {
+                        hs.push(History { reopened: true, ..h.clone() });
+                    }
+                }
+            }
+        }
+        fams.push(("2tx interleavings + 3tx with maintenance, on a recovered database", hs));
     }
     // F4: two keyspaces: reads and writes of one transaction spread over x and y against a committer in x or y
     {
@@ -588,7 +613,7 @@ pub fn histories(tier: &str) -> Vec<(&'static str, Vec<History>)> {
                 for (x, y) in [(a, b), (b, a)] {
                     let txs = vec![x.clone(), y.clone()];
                     for o in bc_orders(2) {
-                        hs.push(History { txs: txs.clone(), events: with_steps(&o, &txs) });
+                        hs.push(History { txs: txs.clone(), events: with_steps(&o, &txs), reopened: false });
                     }
                 }
             }
@@ -640,7 +665,7 @@ pub fn histories(tier: &str) -> Vec<(&'static str, Vec<History>)> {
                         }
                     }
                     ev.extend([Ev::Step(0, 1), Ev::Commit(0)]);
-                    hs.push(History { txs, events: ev });
+                    hs.push(History { txs, events: ev, reopened: false });
                 }
             }
         }
@@ -771,10 +796,11 @@ pub fn run(tier: &str) -> i32 {
     let outcomes: Mutex<BTreeSet<String>> = Mutex::new(BTreeSet::new());
     let mut recs = vec![];
     let mut exhaustive = true;
-    for (name, hs) in &fams {
+    for (fi, (name, hs)) in fams.iter().enumerate() {
         let conflicts = AtomicUsize::new(0);
         let steps = AtomicUsize::new(0);
-        let (done, to) = par_for(hs.len(), threads(), deadline, |i| {
+        // the two 2-transaction families are the required core: executed whatever the clock says
+        let (done, to) = crate::par::par_for_core(hs.len(), if fi < 2 { hs.len() } else { 0 }, threads(), deadline, |i| {
             let h = &hs[i];
             steps.fetch_add(h.events.len(), Ordering::Relaxed);
             match run_history(h) {
